@@ -182,7 +182,10 @@ class RelayWorld:
                 origin=c.origin, remote_addr=c.addr))
         if self.registry_hook:
             sim.hooks_after_step.append(self.registry_hook)
-        await sim.quiescent(self.quiet_horizon)
+        def in_command():
+            return any((not c.task.done()) and c.recv_fut is None for c in self.clients)
+
+        await sim.quiescent(self.quiet_horizon, unless=in_command)
         # ---- quiescence: faults have stopped, everything that could run has run ----------
         self.final["t_quiet"] = sim.stamp()
         self.final["dump"] = env.dump()
